@@ -91,6 +91,10 @@ class KitBase:
         assert isinstance(b, int) and b > 0
         return a % b
 
+    def frac(self, c):
+        """an exact rational constant of the specification (z3 rational / float)"""
+        return z3.RealVal(str(fractions.Fraction(c))) if self.symbolic else float(c)
+
 
 class SymKit(KitBase):
     symbolic = True
@@ -294,6 +298,32 @@ class SymKit(KitBase):
         satisfies an invariant)."""
         from .ndarray import NDArr
         return NDArr.fresh(lambda *idx: wrap(cell_fn(*idx)), tuple(wrap(d) for d in shape), "float")
+
+    def solve_unique(self, what, cand):
+        """Use of the ASSUMED uniqueness clause of numpy.linalg.solve for the LAST system the analysed code solved:
+        first the obligation that the candidate (rows x columns of reals) satisfies that very system A @ cand == b
+        (this is a statement about the matrices the code built), then - by uniqueness - the returned solution IS the
+        candidate.  Natively a no-op (the float solution is simply compared by the ensures that follow)."""
+        from .interp import num_pair
+        solves = getattr(self.ctx, "solves", None)
+        if not solves:
+            raise Unsupported("solve_unique: the analysed code has not called numpy.linalg.solve on this path")
+        Al, X, Bl = solves[-1]
+        m = len(Al)
+        assert len(cand) == m, (len(cand), m)
+        eqs = []
+        for i in range(m):
+            for c in range(len(Bl[i])):
+                acc = 0
+                for j in range(m):
+                    acc = self.I.binop("+", acc, self.I.binop("*", Al[i][j], wrap(cand[j][c]), None), None)
+                ta, tb = num_pair(acc, Bl[i][c])
+                eqs.append(ta == tb)
+        self.ensure(f"{what}: the candidate satisfies the linear system the code hands to the solver", z3.And(*eqs))
+        for j in range(m):
+            for c in range(len(X[j])):
+                ta, tb = num_pair(X[j][c], wrap(cand[j][c]))
+                self.ctx.assume(ta == tb)
 
     def callable(self, fn):
         """A contract-level function passed into the analysed code as a callback."""
@@ -803,6 +833,17 @@ class ConcKit(KitBase):
         arr = np.array(vals, dtype=float).reshape(shape)
         self.used[name] = arr.tolist()
         return arr
+
+    def derived_array(self, shape, cell_fn):
+        import numpy as np, itertools as it
+        shape = tuple(int(d) for d in shape)
+        out = np.full(shape, np.nan, dtype=float)
+        for idx in it.product(*[range(d) for d in shape]):
+            out[idx] = cell_fn(*idx)
+        return out
+
+    def solve_unique(self, what, cand):
+        pass
 
     def array_pattern(self, name, pattern):
         import numpy as np
